@@ -64,8 +64,26 @@ def exhaustive_cases(kind, maxlen):
             yield ([], False, list(seq) + [(52, 0)])
 
 
+def positional_cases(maxlen):
+    """positions move: all sequences up to maxlen over single add / remove / update-to-a-fresh-rule of three rules, on
+    a store that already holds two loaded rules - an update must replace ITS rule wherever that rule now stands"""
+    A = mgmt.ATOMS.a
+    base = [(0, [A("carol"), A("data2"), A("write")]), (0, [A("admin"), A("data2"), A("read")])]
+    rs = [[A("alice"), A("data1"), A("read")], [A("bob"), A("data1"), A("read")], [A("carol"), A("data1"), A("read")]]
+    fresh = [[A("alice"), A("data2"), A("write")], [A("bob"), A("data2"), A("write")]]
+    alpha = [(1, 0, r) for r in rs] + [(3, 0, r) for r in rs[:2]] + [(3, 0, base[0][1])] + \
+            [(6, rs[0], fresh[0]), (6, rs[1], fresh[1]), (6, base[1][1], fresh[0])]
+    for n in range(2, maxlen + 1):
+        for seq in itertools.product(alpha, repeat=n):
+            if sum(1 for o in seq if o[0] == 6) >= 1 and sum(1 for o in seq if o[0] == 3) >= 1:
+                yield (base, True, list(seq) + [(52, 0)])
+
+
 def run(chk, n_random, exh_len):
     rng = chk.rng
+    pc = list(positional_cases(4))
+    mgmt.run_cases(chk, mgmt.KINDS["acl"], pc, spec_check, label="positional-len<=4")
+    chk.extra.setdefault("strata", {})["positional_acl_len<=4"] = len(pc)
     kinds = ["acl", "rbac", "dom", "rbac_res", "acl_deny"]
     ex = list(exhaustive_cases(mgmt.KINDS["acl"], exh_len))
     mgmt.run_cases(chk, mgmt.KINDS["acl"].with_(adapter=False), ex, spec_check, label=f"exhaustive-len<={exh_len}")
